@@ -247,6 +247,14 @@ C02 = {
     'tvol_default_ctor': ('', 'tainted_volatile<int*, S> v; (void)v;', True),
     'tvol_copy_ctor': ('tainted_volatile<int*, S>& o', 'tainted_volatile<int*, S> v(o); (void)v;', True),
     'tainted_reinterpret_from_raw': ('int* raw', 'auto t = sandbox_reinterpret_cast<int*>(raw); (void)t;', True),
+    # an INTEGER (which may hold any application address) turned into a tainted pointer by one of the casts
+    'reinterpret_cast_int_to_ptr': ('tainted<uintptr_t, S>& o', 'auto t = sandbox_reinterpret_cast<int*>(o); (void)t;', True),
+    'reinterpret_cast_tvol_int_to_ptr': ('tainted_volatile<unsigned long, S>& o', 'auto t = sandbox_reinterpret_cast<int*>(o); (void)t;', True),
+    'static_cast_int_to_ptr': ('tainted<uintptr_t, S>& o', 'auto t = sandbox_static_cast<int*>(o); (void)t;', True),
+    'const_cast_int_to_ptr': ('tainted<uintptr_t, S>& o', 'auto t = sandbox_const_cast<int*>(o); (void)t;', True),
+    'tainted_ptr_init_from_tainted_int': ('tainted<uintptr_t, S>& o', 'tainted<int*, S> t = o; (void)t;', True),
+    # (information only: a tainted INTEGER stored into a pointer cell becomes the guest REPRESENTATION (range-checked offset), not an application address)
+    'tvol_ptr_assign_from_tainted_int': ('tainted<uintptr_t, S>& o, tainted_volatile<int*, S>& v', 'v = o;', None),
     'tainted_ptr_memcpy_src_raw_into_sbx_ok': ('tainted<char*, S>& d, char* raw', 'rlbox::memcpy(sb, d, raw, 4u);', None),
     # positive controls (must compile)
     'ok_tainted_ptr_copy': ('tainted<int*, S>& o', 'tainted<int*, S> t = o; (void)t;', False),
